@@ -140,7 +140,10 @@ type runResult struct {
 // toResp turns a reply of the world into a scripted response. keep: how much of the
 // body is transferred before the connection is dropped when the reply is cut short
 // (reduced modulo the length of the body, so the transfer is never complete).
-func toResp(rep si.Reply, keep int) target.Resp {
+//
+// chunk (Case.chunkAt): 0 = the answer carries Content-Length; otherwise it is written in two pieces with a flush after
+// each, i.e. without Content-Length (chunked transfer encoding), cut after (chunk-1) mod (len(body)+1) bytes.
+func toResp(rep si.Reply, keep, chunk int) target.Resp {
 	if rep.Closed {
 		return target.Resp{Hijack: func(c net.Conn, rw io.ReadWriter) {}}
 	}
@@ -160,7 +163,22 @@ func toResp(rep si.Reply, keep int) target.Resp {
 		// the target flushes what was written and closes the connection when Hijack returns
 		return target.Resp{Hijack: func(c net.Conn, rw io.ReadWriter) { _, _ = io.WriteString(rw, raw) }}
 	}
-	return target.Resp{Status: rep.Status, Header: rep.Header, Body: []byte(rep.Body)}
+	if chunk > 0 && len(rep.Body) > 0 {
+		at := (chunk - 1) % (len(rep.Body) + 1)
+		var chunks [][]byte
+		for _, part := range []string{rep.Body[:at], rep.Body[at:]} {
+			if part != "" {
+				chunks = append(chunks, []byte(part))
+			}
+		}
+		return target.Resp{Status: rep.Status, Header: rep.Header, Chunks: chunks}
+	}
+	// (Go's server would leave Content-Length out by itself for a body beyond its 2 KiB write buffer)
+	hdr := map[string]string{"Content-Length": strconv.Itoa(len(rep.Body))}
+	for k, v := range rep.Header {
+		hdr[k] = v
+	}
+	return target.Resp{Status: rep.Status, Header: hdr, Body: []byte(rep.Body)}
 }
 
 func sortedHeaderNames(h map[string]string) []string {
